@@ -93,6 +93,8 @@ type Frame struct {
 	entryWorlds []WorldState
 	panicking   bool
 	recovered   bool
+	stamps      map[ssa.Value]int // execution order of value definitions (latest reaching definition of a name)
+	nstamp      int
 }
 
 type deferResume struct {
@@ -115,6 +117,10 @@ func (f *Frame) clone() *Frame {
 		n.names[k] = v
 	}
 	n.defers = append([]deferred{}, f.defers...)
+	n.stamps = make(map[ssa.Value]int, len(f.stamps))
+	for k, v := range f.stamps {
+		n.stamps[k] = v
+	}
 	n.loopEntry = make(map[int]*loopSnap, len(f.loopEntry))
 	for k, v := range f.loopEntry {
 		n.loopEntry[k] = v
